@@ -1,4 +1,6 @@
 import PwVerif.Proofs.Remote
+import PwVerif.Proofs.RemoteRoutes
+import PwVerif.Proofs.ExecHandles
 /-!
 # C10 — executors are transparent and a node's inputs are frozen while it is out
 
@@ -17,21 +19,21 @@ that honours every executor setting yields the same output values at every node 
 def TransparentStatement (cfg : Cfg) : Prop :=
   ∀ (fails : Nat → Bool) (n : Node) (inCopy : Bool) (ins : List Val),
     allOk (eval fails ins n) = true →
-    outsOf (run cfg fails (.honour inCopy) ins n) = outsOf (eval fails ins n)
+    outsOf (run cfg fails (.honour inCopy) ins [] n) = outsOf (eval fails ins n)
 
 /-- … and the graph keeps its shape: parent, detached path, executor settings, identity and ownership of the IO
 channels, every connection end (in list position), every value link, at every depth. -/
 def KeepsStatement (cfg : Cfg) : Prop :=
   ∀ (fails : Nat → Bool) (n : Node) (inCopy : Bool) (ins : List Val),
-    shapeOf (run cfg fails (.honour inCopy) ins n) = shapeOf n
+    shapeOf (run cfg fails (.honour inCopy) ins [] n) = shapeOf n
 
 /-- Repaired merge: for every graph, every placement of executors at any depth (live or by instructions,
 shared memory or by value), also inside a copy: the result is *the same graph state* as the local run —
 outputs, inputs, child outputs, statuses, wiring. -/
 theorem C10_transparent (fails : Nat → Bool) (n : Node) (mode : Mode) (ins : List Val)
     (h : allOk (eval fails ins n) = true) :
-    run Cfg.repaired fails mode ins n = eval fails ins n :=
-  run_eq_ignore Cfg.repaired fails rfl rfl rfl n mode ins h
+    run Cfg.repaired fails mode ins [] n = eval fails ins n :=
+  run_eq_ignore Cfg.repaired fails rfl rfl rfl n mode ins [] h
 
 example : allOk (eval Ex.nf [] (Ex.wfA .macro (.inst true))) = true := by decide
 
@@ -42,12 +44,12 @@ theorem C10_same_outputs : TransparentStatement Cfg.repaired := by
 /-- Repaired merge: the shape of the graph is untouched, whether or not anything failed. -/
 theorem C10_keeps : KeepsStatement Cfg.repaired := by
   intro fails n ic ins
-  exact shapeOf_run Cfg.repaired fails rfl rfl rfl n _ ins
+  exact shapeOf_run Cfg.repaired fails rfl rfl rfl n _ ins []
 
 /-- Any merge: nothing is left running. -/
 theorem C10_nothing_running (cfg : Cfg) (fails : Nat → Bool) (n : Node) (mode : Mode) (ins : List Val)
-    (h : idle n = true) : idle (run cfg fails mode ins n) = true :=
-  idle_run cfg fails n mode ins h
+    (mask : List Bool) (h : idle n = true) : idle (run cfg fails mode ins mask n) = true :=
+  idle_run cfg fails n mode ins mask h
 
 example : idle (Ex.wfA .macro (.inst true)) = true := by decide
 
@@ -55,11 +57,11 @@ example : idle (Ex.wfA .macro (.inst true)) = true := by decide
 composites on shared-memory executors, at any depth — the run is the local run, and the shape is kept. -/
 theorem C10_transparent_partial (cfg : Cfg) (fails : Nat → Bool) (n : Node) (inCopy : Bool) (ins : List Val)
     (h : noByValueComp n = true) :
-    run cfg fails (.honour inCopy) ins n = eval fails ins n ∧
-    shapeOf (run cfg fails (.honour inCopy) ins n) = shapeOf n := by
-  have h1 : run cfg fails (.honour inCopy) ins n = eval fails ins n :=
-    run_noMerge cfg Cfg.repaired fails n _ ins (by simp [noMerge, h])
-  exact ⟨h1, by rw [h1]; exact shapeOf_run Cfg.repaired fails rfl rfl rfl n _ ins⟩
+    run cfg fails (.honour inCopy) ins [] n = eval fails ins n ∧
+    shapeOf (run cfg fails (.honour inCopy) ins [] n) = shapeOf n := by
+  have h1 : run cfg fails (.honour inCopy) ins [] n = eval fails ins n :=
+    run_noMerge cfg Cfg.repaired fails n _ ins [] (by simp [noMerge, h])
+  exact ⟨h1, by rw [h1]; exact shapeOf_run Cfg.repaired fails rfl rfl rfl n _ ins []⟩
 
 example : noByValueComp (Ex.wfA .macro (.inst false)) = true := by decide
 
@@ -82,14 +84,14 @@ theorem C10_pinned_keeps_witness : ¬ KeepsStatement Cfg.pinned := by
 
 /-- … precisely: parent and detached path both set, channels not owned by the node. -/
 theorem C10_pinned_detached_owner_witness :
-    ((run Cfg.pinned Ex.nf (.honour false) [] (Ex.wfA .macro (.inst true))).kids.map
+    ((run Cfg.pinned Ex.nf (.honour false) [] [] (Ex.wfA .macro (.inst true))).kids.map
       fun n => (n.own.hasParent, n.own.detached, n.own.ioMine)) =
       [(true, false, true), (true, true, false), (true, false, true)] := by decide
 
 /-- Pinned merge, for-node: the neighbours' connections are not re-pointed; the downstream sibling keeps a
 connection end that reaches nothing, is never triggered, and the workflow ends with NOT_DATA — silently. -/
 theorem C10_pinned_for_witness :
-    let r := run Cfg.pinned Ex.nf (.honour false) [] (Ex.wfA .forLike (.inst true))
+    let r := run Cfg.pinned Ex.nf (.honour false) [] [] (Ex.wfA .forLike (.inst true))
     r.own.failed = false ∧ (r.kids.map fun n => n.own.out == nd) = [false, false, true] ∧
     (r.kids.map fun n => n.own.inRefs.length + n.own.outRefs.length) = [5, 2, 3] ∧
     (eval Ex.nf [] (Ex.wfA .forLike (.inst true))).kids.map (fun n => n.own.out == nd) = [false, false, false] := by
@@ -97,7 +99,7 @@ theorem C10_pinned_for_witness :
 
 /-- Pinned merge: live executors of the children of a composite that ran by value are gone. -/
 theorem C10_pinned_child_executor_witness :
-    ((run Cfg.pinned Ex.nf (.honour false) [Ex.c 1, Ex.c 2] (Ex.mk (.inst true))).kids.map fun n => n.own.exe) =
+    ((run Cfg.pinned Ex.nf (.honour false) [Ex.c 1, Ex.c 2] [] (Ex.mk (.inst true))).kids.map fun n => n.own.exe) =
       [.none, .none, .none] ∧
     ((Ex.mk (.inst true)).kids.map fun n => n.own.exe) = [.none, .inst false, .none] := by decide
 
@@ -154,7 +156,7 @@ theorem C10_delivered_comp (cfg : Cfg) (fails : Nat → Bool) (snap : Bool) (o :
     (l : List (Option Ref)) (ks : List Node) (es : List Edit)
     (hk : k ≠ .wf) (hm : o.ioMine = true) (hr : ready (.comp o k l ks) = true) :
     (complete cfg fails (edits (submit snap ⟨.comp o k l ks, none, []⟩).1 es)).1.node
-      = run cfg fails (.honour false) o.ins (.comp o k l ks) := by
+      = run cfg fails (.honour false) o.ins [] (.comp o k l ks) := by
   obtain ⟨h1, _, h3⟩ := submit_comp snap o k l ks hr
   have hl : LockOwner (submit snap ⟨.comp o k l ks, none, []⟩).1.node := by
     rw [h1]; exact ⟨by simpa [Node.kind?] using hk, by simpa [Node.own] using hm⟩
@@ -207,7 +209,6 @@ theorem C10_unlocked_after (cfg : Cfg) (fails : Nat → Bool) (s : Sess) (j : Jo
       | comp o c l ks =>
         simp only [hn, finish, Option.some.injEq] at hf
         subst hf
-        have := idle_run cfg fails (.comp { o with running := false } c l []) (.honour false) o.ins (by simp [idle, idleKids])
         simp only [run]
         split
         · simp only [mergeOrFail, mergeBack]; split
@@ -219,7 +220,7 @@ theorem C10_unlocked_after (cfg : Cfg) (fails : Nat → Bool) (s : Sess) (j : Jo
       | fn o fid => cases snap <;> simp [hn, finish] at hf
       | comp o c l ks =>
         have key : ∀ (l' : List (Option Ref)) (ri : List Val) (ro : Val) (st : KS),
-            (mergeOrFail cfg o c l' ks ri ro st).own.running = false := by
+            (mergeOrFail cfg o c l' [] ks ri ro st).own.running = false := by
           intro l' ri ro st
           simp only [mergeOrFail, mergeBack]; split
           · rfl
@@ -255,6 +256,107 @@ theorem C10_pinned_lock_lost_witness :
     (again Cfg.repaired).node.own.running = true ∧ (edit (again Cfg.repaired) (.setIn 0 (Ex.c 9))).2 = .locked := by
   decide
 
+/-! ## (b') the lock holds on every route, for nodes out at any depth -/
+
+/-- The statement for a configuration of the setters: take any graph in which any nodes, at any depth, are out
+(running, owning their channels). Whatever setter calls are made — entering at any node of the graph (direct
+assignment, `set_input_values`, call keywords, fetch after a connection, `_copy_values`, a workflow's IO panel)
+and forwarded through value links of any length — the inputs of every node that is out are what they were. -/
+def FrozenRoutesStatement (atRecv : Bool) : Prop :=
+  ∀ (root : Node) (ss : List Setter), frozenT (applySetters atRecv root ss) = frozenT root
+
+/-- /repo: every setter on the way consults the lock of its own channel's owner. -/
+theorem C10_frozen_routes : FrozenRoutesStatement true :=
+  fun root ss => applySetters_frozen ss root
+
+/-- a macro that is idle, its value-linked child `p` out on an executor -/
+def Ex.childOut : Node :=
+  match Ex.m2 .macro 5 (Ex.c 1) (Ex.c 2) .none none none [] false with
+  | .comp o k l (ui :: .fn po pf :: rest) =>
+    .comp { o with hasParent := false } k l (ui :: .fn { po with running := true, exe := .inst true } pf :: rest)
+  | n => n
+
+example : (frozenT Ex.childOut).flat = [none, none, some [Ex.dflt, Ex.c 2, Ex.dflt], none] := by decide
+
+/-- the assignment entering at the out node itself is refused whatever the forwarding discipline -/
+theorem C10_frozen_entry (atRecv : Bool) (n : Node) (k : Nat) (v : Val) (h : n.locked = true) :
+    assignAt atRecv k v [] n = none :=
+  assignAt_locked_entry atRecv n k v h
+
+/-- A lock consulted only at the channel that is assigned to is not enough: assigning the idle macro's input `y`
+is accepted and changes the input of the child that is out (its value receiver). -/
+theorem C10_lock_at_entry_only_witness : ¬ FrozenRoutesStatement false := by
+  intro h
+  have := h Ex.childOut [⟨[], 1, Ex.c 9⟩]
+  have := congrArg FT.flat this
+  revert this
+  decide
+
+/-- … and /repo refuses that very call, leaving macro and child as they were. -/
+theorem C10_route_refused_example : assignAt true 1 (Ex.c 9) [] Ex.childOut = none := by decide
+
+/-- a leaf out two levels down (the grandchild `p` of `MO`, after a full local run): submit it on its own,
+attack it from the root's input, from its parent's input, directly, and through an unrelated sibling; complete -/
+def Ex.depthRun : Option (Bool × Bool × Bool) :=
+  let root := eval Ex.nf [Ex.c 1] (Ex.mo .none)
+  match submitAt true [0, 1] root with
+  | some (r, job) =>
+    let r' := applySetters true r [⟨[], 0, Ex.c 9⟩, ⟨[0], 0, Ex.c 9⟩, ⟨[0, 1], 1, Ex.c 9⟩, ⟨[0, 0], 0, Ex.c 8⟩]
+    match finishAt Cfg.repaired Ex.nf job [0, 1] r' with
+    | some f => (nodeAt [0, 1] f).map fun n =>
+        (n.own.running, n.own.out == applyFn 1 n.own.ins, (frozenT r').flat == (frozenT r).flat)
+    | none => none
+  | none => none
+
+/-- … the function was applied to the inputs the node still shows, and nothing that was frozen moved -/
+theorem C10_delivered_at_depth_example : Ex.depthRun = some (false, true, true) := by decide +kernel
+
+/-! ## (d) executor objects: identity, live / shut down, who shuts them down -/
+
+open PwVerif.ExecH in
+/-- /repo never shuts an executor down: for every history of submissions (live executors, instructions handing
+out fresh, shared or already shut-down pools) and completions in any order, every pool that existed keeps the
+state it had — a fortiori every pool the run did not create — and the pools it creates stay as handed out. -/
+theorem C10_executors_untouched (cfg : ExecH.Cfg) (hc : cfg.shutdownBuilt = false) (s : ExecH.St)
+    (ops : List ExecH.Op) (h : Nat) (hh : h < s.pools.length) :
+    poolState (runOps cfg s ops).1.pools h = poolState s.pools h := by
+  obtain ⟨extra, he⟩ := runOps_prefix cfg hc ops s
+  rw [he, poolState_append _ _ _ hh]
+
+open PwVerif.ExecH in
+/-- a submission of an idle node to a live pool is accepted, whichever way the pool was named -/
+theorem C10_live_pool_accepts (cfg : ExecH.Cfg) (s : ExecH.St) (node : Nat) (set : Setting)
+    (hr : s.running node = false) (hf : s.failed node = false)
+    (hl : poolState (parse s.pools set).2.1 (parse s.pools set).1 = .live) :
+    (step cfg s (.submit node set)).2 = .future := by
+  rcases hp : parse s.pools set with ⟨h, pools, built⟩
+  simp only [hp] at hl
+  simp [step, hr, hf, hp, hl]
+
+open PwVerif.ExecH in
+/-- With the repaired submission (a refusal settles the node as failed) no node is ever running without an
+outstanding job, for every history — so when all jobs have come back nothing is running. -/
+theorem C10_running_has_job (cfg : ExecH.Cfg) (hc : cfg.settleRefused = true) (pools : List PS)
+    (ops : List ExecH.Op) : RunningHasJob (runOps cfg (St.init pools) ops).1 :=
+  runOps_runningHasJob cfg hc ops _ (by intro n hn; simp [St.init] at hn)
+
+open PwVerif.ExecH in
+/-- /repo as pinned: a submission the executor refuses (pool shut down) leaves the node `running` with nothing out. -/
+theorem C10_refused_submission_witness :
+    let r := runOps ExecH.Cfg.pinned (St.init [.down]) [.submit 0 (.inst 0)]
+    r.2 = [.refused] ∧ r.1.running 0 = true ∧ r.1.jobs = [] ∧
+    (runOps ExecH.Cfg.repaired (St.init [.down]) [.submit 0 (.inst 0)]).1.running 0 = false := by
+  decide
+
+open PwVerif.ExecH in
+/-- Shutting down what came out of instructions breaks the shared-pool use: the second submission is refused. -/
+theorem C10_shutdown_built_witness :
+    let cfg : ExecH.Cfg := { shutdownBuilt := true, settleRefused := false }
+    let ops := [Op.submit 0 (.instr (.shared 0)), .complete 0, .submit 1 (.instr (.shared 0))]
+    (runOps cfg (St.init [.live]) ops).2 = [.future, .ok, .refused] ∧
+    (runOps ExecH.Cfg.pinned (St.init [.live]) ops).2 = [.future, .ok, .future] := by
+  decide
+
 end PwVerif.C10
 
 #print axioms PwVerif.C10.C10_transparent
@@ -276,3 +378,13 @@ end PwVerif.C10
 #print axioms PwVerif.C10.C10_unlocked_after
 #print axioms PwVerif.C10.C10_failure_settles
 #print axioms PwVerif.C10.C10_pinned_lock_lost_witness
+#print axioms PwVerif.C10.C10_frozen_routes
+#print axioms PwVerif.C10.C10_frozen_entry
+#print axioms PwVerif.C10.C10_lock_at_entry_only_witness
+#print axioms PwVerif.C10.C10_route_refused_example
+#print axioms PwVerif.C10.C10_delivered_at_depth_example
+#print axioms PwVerif.C10.C10_executors_untouched
+#print axioms PwVerif.C10.C10_live_pool_accepts
+#print axioms PwVerif.C10.C10_running_has_job
+#print axioms PwVerif.C10.C10_refused_submission_witness
+#print axioms PwVerif.C10.C10_shutdown_built_witness
